@@ -5,6 +5,9 @@
    cropped_next (state and result swapped: the generated `next` returns (new self, item)). *)
 From EG Require Import Base.Prelude Base.Casts Model.Geometry Model.Target Gen.SrcGeometry Gen.SrcCropped Proofs.SrcGeometry Proofs.SrcRectFacts.
 Set Default Timeout 60.
+(* the generated definitions that cast to usize (`as usize`, `usize::try_from`) take the width of usize as Casts.UsizeW; the model
+   of this property works with 64-bit usize (exact integers in range): taken at that width *)
+#[local] Existing Instance Casts.usize64_w.
 
 Definition st_next (s : stream) : stream * option Z := (snd (snext s), fst (snext s)).
 Definition st_nth (s : stream) (n : Z) : stream * option Z := (snd (snth (Z.to_nat n) s), fst (snth (Z.to_nat n) s)).
